@@ -19,6 +19,47 @@ CLAIMS = {
         ref='DESIGN.md section 4, C19'),
 }
 
+CLAIMS.update({
+    'C14': dict(
+        technique='provenance (def-use) analysis of Task(...)/WorkflowPlan(...) arguments + per-iteration path rule',
+        text='Static: one Task appended and mapped per node of topological_sort(graph) on every path of the '
+             'node loop; every Task argument is shown to come from the right node/edge attribute of the '
+             'workflow graph; the plan graph is relabel_nodes(graph, mapping); predecessor/successor queries '
+             'call the graph in their own role. Holds for every DAG because the rule is about the code shape.',
+        note='Trusts the documented networkx API; BatchPlanning only (SHADOWPlanning needs the absent shadow library).',
+        ref='DESIGN.md section 4, C14'),
+    'C16': dict(
+        technique='finite-world partial evaluation of the three unit ladders + affine scaling table',
+        text='Static, complete for the statement up to float rounding: in six worlds (minutes, hours, two custom '
+             'integers, seconds, unknown spelling) every feasible path of the three parse functions is evaluated; '
+             'each of 14 quantities must be its own config key times m, divided by m, or unscaled.',
+        note='Quantities are assumed whole multiples of the unit; round() is treated as transparent.',
+        ref='DESIGN.md section 4, C16'),
+    'C17': dict(
+        technique='provenance analysis of the allocation map + who-writes/who-calls rules over the call graph',
+        text='Static: every machine the plan-following algorithm proposes for task t is the machine with id '
+             't.allocated_machine_id; the planned machine is rewritten only by Task itself at the scheduler\'s '
+             'request; the (task, machine) pair is passed unchanged from scheduler to cluster to do_work.',
+        note='Does not decide that the planned machine eventually becomes free (liveness).',
+        ref='DESIGN.md section 4, C17'),
+    'C10': dict(
+        technique='package-wide determinism lint: set-typed dataflow, RNG seeding, clock/identity sinks, repr',
+        text='Static lint over all topsim modules: order-sensitive iteration over hash-ordered sets (set-typedness '
+             'propagated through call sites), unseeded generators, wall-clock/id() flows outside the excluded '
+             'timing sinks, and address-bearing text of algorithm objects are each reported. Given SimPy\'s '
+             'deterministic queue these are the only sources that can make two runs differ.',
+        note='Trusts SimPy/pandas determinism and insertion-ordered dicts; dead modules listed in the evidence are skipped.',
+        ref='DESIGN.md section 4, C10'),
+    'C15': dict(
+        technique='sibling-agreement and path-dominance rules over the delay ladder; provenance of the returned delay',
+        text='Static: every distribution branch must draw an array from default_rng(self.seed) and use the degree '
+             'through .value; the returned value is an element of sample[sample > mean] or the runtime; the empty '
+             'selection is guarded; degree 0 returns before any draw; do_work flags lengthened tasks and the '
+             'scheduler reports DELAYED. The uniform branch is a recorded known finding.',
+        note='Trusts numpy Generator semantics; distribution values themselves are not decided.',
+        ref='DESIGN.md section 4, C15'),
+})
+
 NOT_YET = 'check under construction in this session (see DESIGN.md section 4); not claimed until its command exists'
 
 
